@@ -103,7 +103,7 @@ def compare(ctx, prefix, key, what, t, where):
 def filter_closures(facts, m):
     """closure bodies passed to Iterator::filter in the insert routine: list of (filter Call, closure body)"""
     out = []
-    for c in m.calls_to(r"Iterator>::filter$|::filter$"):
+    for c in m.calls_to(r"Iterator>::filter$|::filter$|Iterator>::any$|::any$"):
         if len(c.args) < 2:
             continue
         p = op_place(c.args[1])
@@ -137,7 +137,7 @@ def run(ctx):
             ctx.check(all(n in ("iter", "into_iter", "deref") for n in names) and root == ("upvar", root[1]) and _upvar_is(im, root[1], "entries"), P, "filter-source|" + key,
                       "%s filters the file's full entry list (chain %s)" % (what, names), c.where())
         # the early exit: count()==0 -> return without creating a scratch file
-        cnt = im.calls_to(r"Iterator>::count$|::count$")
+        cnt = im.calls_to(r"Iterator>::count$|::count$|Iterator>::any$|::any$")
         tmp = im.calls_to(r"AsyncTempFile::new$")
         if ctx.check(len(cnt) == 1 and len(tmp) == 1, P, "anchor|early-exit", "early exit (count) and scratch creation found", im.where()):
             dom = cfg.dominators(im)
@@ -347,6 +347,25 @@ def _sum_rule(ctx, r, prefix, key, ty, field):
             if st["k"] == "assign" and st["rv"]["k"] == "bin" and st["rv"]["op"] in ("AddWithOverflow", "Add") and st["rv"].get("ty") == ty:
                 adds.append((bb, st))
     ok = len(adds) == 1
+    if not adds:
+        # iterator form: the returned value (.field of the result) is iter().fold(0, |t, x| t + x.f) / sum()
+        from ..common import iterator_fold
+        got = None
+        for (bb, st) in return_values(r):
+            rv = st["rv"]
+            if rv["k"] == "agg" and rv.get("variant") == "Some":
+                inner = rv["ops"][0]
+                d = single_def(r, op_place(inner)["l"]) if op_place(inner) else None
+                cand = [inner]
+                if d and d[1] == "assign" and d[2]["rv"]["k"] == "agg":
+                    cand = list(d[2]["rv"]["ops"])
+                for c in cand:
+                    itf = iterator_fold(r.facts, r, c)
+                    if itf and itf["kind"] == "sum":
+                        got = itf
+        ok = got is not None and got["root"] == ("param", 1) and got["init"] == 0 and (got["field"] == field or (field is None and got["field"] is None))
+        ctx.check(ok, prefix, "sum|" + key, "%s is a plain sum over every map result, starting at 0 (iterator form)" % key, r.where())
+        return
     if ok:
         bb, st = adds[0]
         rv = st["rv"]
